@@ -307,6 +307,102 @@ def _of_registered_object(f, st):
     return False
 
 
+def _cannot_raise(st):
+    """a statement that only binds a local to a constant, a name or an empty container"""
+    if isinstance(st, ast.Pass):
+        return True
+    if isinstance(st, (ast.Assign, ast.AnnAssign)):
+        tg = st.targets if isinstance(st, ast.Assign) else [st.target]
+        v = st.value
+        simple = v is None or isinstance(v, (ast.Constant, ast.Name)) or (isinstance(v, (ast.List, ast.Tuple, ast.Dict)) and not any(
+            True for _ in ast.walk(v) if isinstance(_, (ast.Call, ast.Subscript, ast.Attribute, ast.BinOp))))
+        return simple and all(isinstance(t, ast.Name) for t in tg)
+    return False
+
+
+def scoped_flags(ctx, R):
+    """Parser attributes that mark "a parse is running": assigned a constant in __init__, the other constant at the start of parse() and the
+    first one again in a `finally` clause of parse().  -> {attr: "scoped" | (<acquiring store>, <why the flag can stay set>)}
+    The pairing rule: between the acquiring store and the `try` whose finally clause releases the flag nothing may raise."""
+    if hasattr(ctx, "_scoped_flags"):
+        return ctx._scoped_flags
+    out = {}
+    ctx._scoped_flags = out
+    prog = ctx.program
+    init = R.Parser.methods.get("__init__")
+    pf = R.parse
+    if init is None:
+        return out
+    sn = pf.params[0]
+    start = {}
+    for a in walk_no_nested(init.node):
+        if isinstance(a, (ast.Assign, ast.AnnAssign)) and a.value is not None:
+            for t in (a.targets if isinstance(a, ast.Assign) else [a.target]):
+                if isinstance(t, ast.Attribute) and isinstance(t.value, ast.Name) and t.value.id == init.params[0]:
+                    v = const_value(prog, init, a.value)
+                    if isinstance(v, bool) or v is None:
+                        start[t.attr] = v
+    for attr, v0 in start.items():
+        stores = []
+        foreign = False
+        for f in R.Parser.methods.values():
+            if f is init:
+                continue
+            for a in walk_no_nested(f.node):
+                if isinstance(a, ast.Assign) and any(isinstance(t, ast.Attribute) and t.attr == attr and isinstance(t.value, ast.Name)
+                                                     and t.value.id == f.params[0] for t in a.targets):
+                    if f is not pf:
+                        foreign = True
+                    stores.append(a)
+        if foreign or not stores:
+            continue
+        acquire = [a for a in stores if const_value(prog, pf, a.value) not in (v0, TOP)]
+        release = [a for a in stores if const_value(prog, pf, a.value) == v0 and type(const_value(prog, pf, a.value)) is type(v0)]
+        if not acquire or len(acquire) + len(release) != len(stores):
+            continue
+        verdict = "scoped"
+        # the statements of parse() in order, the bodies of inlined helpers in place of their calls
+        body = []
+
+        def flat(sts):
+            for s_ in sts:
+                if type(s_).__name__ == "InlineBlock":
+                    flat(s_.body)
+                else:
+                    body.append(s_)
+        flat(pf.node.body)
+        for a in acquire:
+            if not any(s_ is a for s_ in body):
+                verdict = (a, "it is set inside a nested statement")
+                break
+            rest = body[[i_ for i_, s_ in enumerate(body) if s_ is a][0] + 1:]
+            k = 0
+            while k < len(rest) and not isinstance(rest[k], ast.Try):
+                k += 1
+            if k == len(rest):
+                verdict = (a, "no try/finally follows the store")
+                break
+            tr = rest[k]
+            fin = []
+
+            def flat2(sts):
+                for s_ in sts:
+                    if type(s_).__name__ == "InlineBlock":
+                        flat2(s_.body)
+                    else:
+                        fin.append(s_)
+            flat2(tr.finalbody)
+            if not any(r_ is s_ for r_ in release for s_ in fin):
+                verdict = (a, "the finally clause of the following try does not clear it unconditionally")
+                break
+            risky = [s_ for s_ in rest[:k] if not _cannot_raise(s_)]
+            if risky:
+                verdict = (a, "`%s` runs between the store and the try: when it raises, the flag stays set" % norm(risky[0])[:60])
+                break
+        out[attr] = verdict
+    return out
+
+
 def h2(ctx, R):
     prog = ctx.program
     # ---- H2 ----------------------------------------------------------------------
@@ -356,9 +452,18 @@ def h2(ctx, R):
         if isinstance(n, ast.Attribute) and isinstance(n.ctx, ast.Store) and isinstance(n.value, ast.Name) and n.value.id == R.reset.params[0]:
             inits.add(n.attr)
     ctx.need("H2", "parser attributes written by handlers", len(written), 6)
+    scoped = scoped_flags(ctx, R)
     for a, f in sorted(written.items()):
         if a in inits:
             ctx.holds("H2", "Parser.%s (written in %s) is re-initialised by the reset" % (a, f.qualname))
+        elif scoped.get(a) == "scoped":
+            ctx.holds("H2", "Parser.%s marks a running parse: set at the start of %s, cleared in its finally clause, nothing between the store "
+                      "and the try can raise" % (a, R.parse.qualname))
+        elif a in scoped:
+            st_, why = scoped[a]
+            ctx.violation("H2", R.parse, "flag-not-released:%s" % a, "Parser.%s marks a running parse but can stay set after parse() has ended: %s"
+                          % (a, why), node=st_, witness="after one call that raises at that point every later parse() on the object is refused (or "
+                          "starts from the state the flag guards)")
         else:
             ctx.violation("H2", R.reset, "not-reset:%s" % a, "Parser attribute %s is written by %s but not re-initialised by %s" % (
                 a, f.qualname, R.reset.qualname), node=R.reset.node,
